@@ -18,8 +18,10 @@ LEVEL = ('decides the mechanisms the statement names: the core guard has a Drop 
          'covers every earlier decision level, evaluated with symbolic levels (A14). The public API '
          'forwards assumptions unchanged to the engine (A17). Also runs the LIFE-CYCLE BUNDLE (…L<n>):'
          ' the typestate rules over arbitrary API sequences of C10 (usable root state after every '
-         'call, inert posting in inconsistent states, entry guards, stored-solution extent). Does not '
-         'decide that a core is logically a core')
+         'call, inert posting in inconsistent states, entry guards, stored-solution extent). Also runs'
+         ' the KERNEL BUNDLE (AK<n>): predicate algebra, implicit reasons, watchers, minimisers, '
+         'conflict-analysis tables, constraint builders and explanation rules registered under other '
+         'properties. Does not decide that a core is logically a core')
 TECHNIQUE = "static analysis: dominance / who-may-call / taint / typestate over rustc MIR"
 
 GUARD = "UnsatisfiableUnderAssumptions"
@@ -302,3 +304,4 @@ def run(ctx, led):
     run_rule(led, "A17", "the API forwards the caller's assumptions unchanged", a17, ctx)
     from . import kernel as _kernel2
     _kernel2.run_lifecycle(led, ctx, "A")
+    _kernel2.run_bundle(led, ctx, "A")
